@@ -42,7 +42,7 @@ def state_nonintegral(state):
 
 
 def parse_info(s):
-    """'dim=3 state=...' -> (dim, state)"""
+    """'dim=3 state=...' -> (dim, state)   (first occurrence: the receiver)"""
     m = re.search(r"dim=(\S+) state=(\S+)", s)
     if not m:
         return None, None
@@ -216,6 +216,9 @@ def run(ctx):
                 mv = [Fraction(x) for x in m.group(2).split(",")]
                 if ((lv - mv[0]) / fr).denominator == 1:
                     tags.append("value_in_class_not_least_magnitude")
+        if name == "rel_gen":
+            if state == "EMPTY" and stb and "-EM" in stb:
+                tags.append("receiver_empty_not_yet_detected")
         if name == "rel_con":
             kind = args[0]
             m = re.search(r"lib=(\d+) model=(\d+)", detail)
@@ -251,6 +254,8 @@ def run(ctx):
                 v = V.get(n, ("", ""))
                 if v[0] in ("ok", "MISMATCH") or "adopted" in v[1]:
                     break                       # synchronised here
+            if tt[0] == "obs" and tt[1] == str(cs) and tt[2] == "rel_con" and tt[3] != "0":
+                out.append((n, t))              # an observer that rewrites the generator system in place
             if tt[0] != "op" or not op_effective(n):
                 continue
             name = tt[2]
@@ -290,6 +295,12 @@ def run(ctx):
 
     def op_site_tags(hist, n, t, name, detail):
         tags = []
+        if t.startswith("obs "):
+            tt = t.split()
+            site = QUERY_SITE.get(tt[2], tt[2])
+            if tt[2] == "rel_con" and tt[3] != "0" and div_ne_1(status_after(hist, n, int(tt[1])), None):
+                tags.append("inequality_and_point_divisor_ne_1_state_rewritten")
+            return site, tags
         site = api_of(t)
         opname = t.split()[2]
         _, vinfo = V.get(n, ("", ""))
@@ -304,9 +315,10 @@ def run(ctx):
         if stb and "+GM" in stb and opname not in OVERWRITE:
             tags.append("generators_minimized")
         if opname in ("copy",):
-            if "model=EMPTY" in detail:
+            src_state = parse_info(vinfo.split(" arg:", 1)[1])[1] if " arg:" in vinfo else None
+            if src_state == "EMPTY":
                 tags.append("source_empty")
-                if name in ("cgs", "mincgs"):
+                if name in ("cgs", "mincgs", ""):
                     tags.append("source_empty_congruences_observed")
         if site == "generalized_affine_preimage_var":
             k = kv(t)
@@ -381,18 +393,37 @@ def run(ctx):
             continue
         if kind == "CRASH":
             n_mis += 1
-            m = re.search(r"op:(\S+) opline=(\d+) slot=(\d+) pre: (.*)$", rest)
+            m = re.search(r"op:(\S+) opline=(\d+) slot=(\d+) try=(\S+) pre: (.*)$", rest)
             site, tags = "crash", []
             opl = None
             if m:
                 opl = int(m.group(2))
-                site = api_of(J[opl - 1]) if opl >= 1 else m.group(1)
-                dim, state = parse_info(m.group(4))
-                stb = status_before(hist, opl, int(m.group(3))) if hist else None
-                if opl >= 1:
-                    tags += op_site_tags(hist, opl, J[opl - 1], "", "")[1]
-                if state == "EMPTY" and stb and "-EM" in stb:
-                    tags.append("receiver_empty_not_yet_detected")
+                opslot = int(m.group(3))
+                dim, state = parse_info(m.group(5))
+                if m.group(4) != "-":
+                    # an observer crashed: every operation on the lineage of that slot is a candidate
+                    cands = candidates(hist, ln, int(m.group(4)))
+                else:
+                    cands = [(opl, J[opl - 1])] + candidates(hist, opl, opslot)
+                    if len(J[opl - 1].split()) > 3 and J[opl - 1].split()[2] in BINARY and J[opl - 1].split()[3].isdigit():
+                        cands += candidates(hist, opl, int(J[opl - 1].split()[3]))
+                first = None
+                for (n, t) in cands:
+                    st_, tg_ = op_site_tags(hist, n, t, "", "")
+                    _, vinfo = V.get(n, ("", ""))
+                    pre = parse_info(vinfo.split("pre:", 1)[1])[1] if "pre:" in vinfo else None
+                    if n == opl and m.group(4) == "-":
+                        pre = state
+                    stb = status_before(hist, n, slot_of(t))
+                    if pre == "EMPTY" and stb and "-EM" in stb:
+                        tg_.append("receiver_empty_not_yet_detected")
+                    if first is None:
+                        first = (st_, tg_)
+                    if ctx.match_known({"site": st_, "tags": tg_}) is not None:
+                        first = (st_, tg_)
+                        break
+                if first:
+                    site, tags = first
             report("the library crashed (%s) in %s: %s" % (rest.split(" op:")[0], site, J[opl - 1][:300] if opl else "?"),
                    hist, ln, site, tags, {"crash": rest})
             if is_known(site, tags) and hist is not None:
@@ -406,27 +437,50 @@ def run(ctx):
         s = slot_of(J[ln - 1])
         if obl == "query":
             # was the state already wrong?  look ahead to the next description of this slot
+            # (and of the argument slot of a binary query)
+            slots = [s]
+            qt = J[ln - 1].split()
+            if name in ("contains", "strictly_contains", "equals", "is_disjoint_from") and qt[3].isdigit() and int(qt[3]) != s:
+                slots.append(int(qt[3]))
             explained = False
-            for (n2, t2) in hist.lines:
-                if n2 <= ln:
-                    continue
-                tt = t2.split()
-                if not tt or tt[0] not in ("op", "obs") or len(tt) < 3:
-                    continue
-                if tt[0] == "op" and tt[1] == str(s) and tt[2] in OVERWRITE:
-                    break
-                if tt[0] == "obs" and tt[1] == str(s) and tt[2] in DESC:
-                    explained = V.get(n2, ("", ""))[0] == "MISMATCH"
-                    if explained and n2 not in blame:
-                        c0 = candidates(hist, ln, s)
-                        lo0 = c0[0] if c0 else last_op(hist, ln, s)
-                        if lo0 is not None:
-                            blame[n2] = lo0
-                    break
+            for sl in slots:
+                for (n2, t2) in hist.lines:
+                    if n2 <= ln:
+                        continue
+                    tt = t2.split()
+                    if not tt or tt[0] not in ("op", "obs") or len(tt) < 3:
+                        continue
+                    if tt[0] == "op" and tt[1] == str(sl) and tt[2] in OVERWRITE:
+                        break
+                    if tt[0] == "obs" and tt[1] == str(sl) and tt[2] in DESC:
+                        if V.get(n2, ("", ""))[0] == "MISMATCH":
+                            explained = True
+                            if n2 not in blame:
+                                c0 = candidates(hist, ln, sl)
+                                lo0 = c0[0] if c0 else last_op(hist, ln, sl)
+                                if lo0 is not None:
+                                    blame[n2] = lo0
+                        break
             if explained:
                 continue          # reported with the description mismatch that follows
             det, info = (detail.split(" || ", 1) + [""])[:2]
             site, tags = classify_query(hist, ln, name, det, info)
+            if not is_known(site, tags):
+                # an operation on the lineage of the slot(s) that is known to corrupt the state?
+                hit = None
+                for sl in slots:
+                    for (n, t) in candidates(hist, ln, sl):
+                        st_, tg_ = op_site_tags(hist, n, t, "", "")
+                        if is_known(st_, tg_):
+                            hit = (st_, tg_, t)
+                            break
+                    if hit:
+                        break
+                if hit:
+                    report("after %s (state not observed since) %s answers against the reference: %s" % (hit[0], site, det[:300]),
+                           hist, ln, hit[0], hit[1], {"obligation": "query", "detail": det, "state": info, "op": hit[2]})
+                    tainted.add(hist.hid)
+                    continue
             report("%s answers against the denoted set: %s  [%s]" % (site, det[:300], J[ln - 1][:200]),
                    hist, ln, site, tags, {"obligation": "query", "detail": det, "state": info})
         else:
